@@ -60,7 +60,9 @@ def tasks(tier, pid):
     if pid in ('C05', 'C03', 'C04'):
         t += [('sol', 'create_solution', c) for c in SOL.OPS['create_solution'].cases(tier)]
     if pid == 'C03':
-        t.append(('float_bounded', 60 if tier == 'quick' else 2000))
+        t.append(('float_bounded', 300 if tier == 'quick' else 3000))
+    if pid in ('C01', 'C02', 'C05', 'C10', 'C11', 'C12'):
+        t.append(('float_targets', 40 if tier == 'quick' else 400))
     if pid == 'C10':
         t.append(('syntactic_cached',))
     if pid in ('C04', 'C07', 'C17'):
@@ -106,6 +108,9 @@ def run(pid, kind, *args):
     if kind == 'float_bounded':
         from contracts import c03_float
         return c03_float.run(*args)
+    if kind == 'float_targets':
+        from contracts import float_targets
+        return float_targets.run(pid, *args)
     if kind == 'syntactic_cached':
         from contracts import c04_syntactic
         return [dict(r, name=r['name'].replace('C04/', 'C10/')) for r in c04_syntactic.run() if 'cached-results' in r['name']]
